@@ -10,6 +10,7 @@ CONSTANTS
   Heights = {0, 1, 2}
   MaxCRound = 5
   Cutoff = 4
+  InstCap = 2
 INVARIANT TypeOK
 INVARIANT OncePerArming
 INVARIANT OnlyLatest
